@@ -62,3 +62,516 @@ pub proof fn lemma_nz_keys_done<V>(s: Seq<(&Tid, &V)>, m: Map<Tid, V>)
         }
     }
 }
+
+/// an owner map makes the tids unique
+pub proof fn lemma_nz_owner_unique(owner: Map<Tid, NzPos>, prog: Tid, subs: Map<Tid, Term<Sub>>)
+    requires
+        nz_owner_of(owner, prog, subs),
+    ensures
+        nz_unique(prog, subs),
+{
+}
+
+/// owner facts per function give the owner map of the program
+pub proof fn lemma_nz_owner_all(owner: Map<Tid, NzPos>, prog: Tid, subs: Map<Tid, Term<Sub>>)
+    requires
+        owner.contains_key(prog) && owner[prog] == NzPos::Prog,
+        forall |k: Tid| #[trigger] subs.contains_key(k) ==> nz_sub_owned(owner, k, subs[k]),
+    ensures
+        nz_owner_of(owner, prog, subs),
+{
+    assert forall |p: NzPos| #[trigger] nz_pos_ok(subs, p) implies owner.contains_key(nz_tid_at(prog, subs, p)) && owner[nz_tid_at(prog, subs, p)] == p by {
+        match p {
+            NzPos::Prog => {},
+            NzPos::Sub(k) => { assert(nz_sub_owned(owner, k, subs[k])); },
+            NzPos::Blk(k, i) => { assert(nz_sub_owned(owner, k, subs[k])); assert(nz_blk_owned(owner, k, i, subs[k].term.blocks@[i])); },
+            NzPos::Def(k, i, j) => { assert(nz_sub_owned(owner, k, subs[k])); assert(nz_blk_owned(owner, k, i, subs[k].term.blocks@[i])); },
+            NzPos::Jmp(k, i, j) => { assert(nz_sub_owned(owner, k, subs[k])); assert(nz_blk_owned(owner, k, i, subs[k].term.blocks@[i])); },
+        }
+    }
+}
+
+/// a NEW tid does not disturb what is owned already
+pub proof fn lemma_nz_owned_insert(owner: Map<Tid, NzPos>, t: Tid, p: NzPos)
+    requires
+        !owner.contains_key(t),
+    ensures
+        forall |k: Tid, i: int, b: Term<Blk>| #[trigger] nz_blk_owned(owner, k, i, b) ==> nz_blk_owned(owner.insert(t, p), k, i, b),
+        forall |k: Tid, s: Term<Sub>| #[trigger] nz_sub_owned(owner, k, s) ==> nz_sub_owned(owner.insert(t, p), k, s),
+{
+    let o2 = owner.insert(t, p);
+    assert forall |k: Tid, i: int, b: Term<Blk>| #[trigger] nz_blk_owned(owner, k, i, b) implies nz_blk_owned(o2, k, i, b) by {
+    }
+    assert forall |k: Tid, s: Term<Sub>| #[trigger] nz_sub_owned(owner, k, s) implies nz_sub_owned(o2, k, s) by {
+        assert forall |i: int| 0 <= i < s.term.blocks@.len() implies nz_blk_owned(o2, k, i, #[trigger] s.term.blocks@[i]) by {
+            assert(nz_blk_owned(owner, k, i, s.term.blocks@[i]));
+        }
+    }
+}
+
+/// inserting the tid of a position that is not one of the later function / entry positions keeps those fresh
+pub proof fn lemma_nz_later_insert(known: Set<Tid>, prog: Tid, subs0: Map<Tid, Term<Sub>>, ks: Seq<Tid>, n: int, p: NzPos)
+    requires
+        nz_later_fresh(known, prog, subs0, ks, n),
+        nz_pos_ok(subs0, p),
+        nz_not_later(p, ks, n),
+    ensures
+        nz_later_fresh(known.insert(nz_tid_at(prog, subs0, p)), prog, subs0, ks, n),
+{
+    let t = nz_tid_at(prog, subs0, p);
+    assert forall |j: int| n <= j < ks.len() implies
+        (nz_alone(prog, subs0, NzPos::Sub(#[trigger] ks[j])) ==> !known.insert(t).contains(subs0[ks[j]].tid))
+        && (nz_alone(prog, subs0, NzPos::Blk(ks[j], 0)) ==> !known.insert(t).contains(subs0[ks[j]].term.blocks@[0].tid)) by {
+        assert(p != NzPos::Sub(ks[j]) && p != NzPos::Blk(ks[j], 0));
+        if nz_alone(prog, subs0, NzPos::Sub(ks[j])) {
+            assert(nz_tid_at(prog, subs0, p) != nz_tid_at(prog, subs0, NzPos::Sub(ks[j])));
+        }
+        if nz_alone(prog, subs0, NzPos::Blk(ks[j], 0)) {
+            assert(nz_tid_at(prog, subs0, p) != nz_tid_at(prog, subs0, NzPos::Blk(ks[j], 0)));
+        }
+    }
+}
+
+/// end of the duplicate removal: the per-function facts (in key order) give the postcondition
+pub proof fn lemma_nz_dedup_done(ks: Seq<Tid>, prog: Tid, subs0: Map<Tid, Term<Sub>>, subs1: Map<Tid, Term<Sub>>, owner: Map<Tid, NzPos>)
+    requires
+        nz_keys_of(ks, subs0),
+        subs1.dom() =~= subs0.dom(),
+        owner.contains_key(prog) && owner[prog] == NzPos::Prog,
+        forall |j: int| 0 <= j < ks.len() ==> nz_dedup_sub(subs0[#[trigger] ks[j]], subs1[ks[j]]),
+        forall |j: int| 0 <= j < ks.len() && nz_alone(prog, subs0, NzPos::Blk(#[trigger] ks[j], 0)) ==>
+            subs1[ks[j]].term.blocks@.len() > 0 && nz_dedup_blk(subs0[ks[j]].term.blocks@[0], subs1[ks[j]].term.blocks@[0]),
+        forall |j: int| 0 <= j < ks.len() ==> nz_sub_owned(owner, #[trigger] ks[j], subs1[ks[j]]),
+    ensures
+        nz_dedup_post(subs0, subs1),
+        nz_owner_of(owner, prog, subs1),
+        nz_dedup_entries(prog, subs0, subs1),
+{
+    assert forall |k: Tid| #[trigger] subs0.contains_key(k) implies nz_dedup_sub(subs0[k], subs1[k]) && nz_sub_owned(owner, k, subs1[k])
+        && (nz_alone(prog, subs0, NzPos::Blk(k, 0)) ==> subs1[k].term.blocks@.len() > 0 && nz_dedup_blk(subs0[k].term.blocks@[0], subs1[k].term.blocks@[0])) by {
+        let j = choose |j: int| 0 <= j < ks.len() && #[trigger] ks[j] == k;
+        assert(nz_dedup_sub(subs0[ks[j]], subs1[ks[j]]));
+    }
+    assert forall |k: Tid| #[trigger] subs1.contains_key(k) implies nz_sub_owned(owner, k, subs1[k]) by {
+        assert(subs0.contains_key(k));
+    }
+    lemma_nz_owner_all(owner, prog, subs1);
+}
+
+/// after a complete iteration the partial set of non-returning functions is the set of the program
+pub proof fn lemma_nz_nonret_all(s: Seq<(&Tid, &Term<Sub>)>, subs: Map<Tid, Term<Sub>>)
+    requires
+        nz_iter_of(s, subs),
+    ensures
+        forall |n: int, t: Tid| n == s.len() ==> (#[trigger] nz_nonret_n(s, n, t) <==> nz_nonret(subs, t)),
+{
+    assert forall |n: int, t: Tid| n == s.len() implies (#[trigger] nz_nonret_n(s, n, t) <==> nz_nonret(subs, t)) by {
+        if nz_nonret_n(s, n, t) {
+            let j = choose |j: int| 0 <= j < n && (#[trigger] s[j]).1.tid == t && !nz_blocks_return(s[j].1.term.blocks@) && t != nz_sink_sub();
+            assert(subs.contains_key(*s[j].0) && subs[*s[j].0] == *s[j].1);
+        }
+        if nz_nonret(subs, t) {
+            let k = choose |k: Tid| #[trigger] subs.contains_key(k) && subs[k].tid == t && !nz_blocks_return(subs[k].term.blocks@) && t != nz_sink_sub();
+            let j = choose |j: int| 0 <= j < s.len() && *(#[trigger] s[j]).0 == k;
+            assert(s[j].1.tid == t);
+        }
+    }
+}
+
+/// two block lists with the same tids have the same "has an artificial sink" verdict
+pub proof fn lemma_nz_has_sink_same(l0: Seq<Term<Blk>>, l1: Seq<Term<Blk>>, s: Seq<char>)
+    requires
+        l0.len() == l1.len(),
+        forall |i: int| 0 <= i < l0.len() ==> (#[trigger] l1[i]).tid == l0[i].tid,
+    ensures
+        nz_has_sink(l0, s) == nz_has_sink(l1, s),
+{
+    if nz_has_sink(l0, s) {
+        let i = choose |i: int| 0 <= i < l0.len() && nz_is_sink_blk((#[trigger] l0[i]).tid, s);
+        assert(nz_is_sink_blk(l1[i].tid, s));
+    }
+    if nz_has_sink(l1, s) {
+        let i = choose |i: int| 0 <= i < l1.len() && nz_is_sink_blk((#[trigger] l1[i]).tid, s);
+        assert(nz_is_sink_blk(l0[i].tid, s));
+    }
+}
+
+/// coverage is monotone in the map
+pub proof fn lemma_nz_cover_mono<V>(m0: Map<Tid, V>, m1: Map<Tid, V>)
+    requires
+        nz_grows(m0, m1),
+    ensures
+        forall |b: Term<Blk>| #[trigger] nz_cover_blk(m0, b) ==> nz_cover_blk(m1, b),
+        forall |s: Term<Sub>| #[trigger] nz_cover_sub(m0, s) ==> nz_cover_sub(m1, s),
+{
+    assert forall |s: Term<Sub>| #[trigger] nz_cover_sub(m0, s) implies nz_cover_sub(m1, s) by {
+        assert forall |i: int| 0 <= i < s.term.blocks@.len() implies nz_cover_blk(m1, #[trigger] s.term.blocks@[i]) by {
+            assert(nz_cover_blk(m0, s.term.blocks@[i]));
+        }
+    }
+}
+
+/// entries that are right + every term covered + unique tids  ==>  the home map of the program
+pub proof fn lemma_nz_home_done(home: Map<Tid, Tid>, prog: Tid, subs: Map<Tid, Term<Sub>>)
+    requires
+        nz_unique(prog, subs),
+        nz_home_entries(home, prog, subs),
+        forall |k: Tid| #[trigger] subs.contains_key(k) ==> nz_cover_sub(home, subs[k]),
+    ensures
+        nz_home_ok(home, prog, subs),
+{
+    assert forall |p: NzPos| #[trigger] nz_pos_ok(subs, p) && !(p is Prog) implies
+        home.contains_key(nz_tid_at(prog, subs, p)) && home[nz_tid_at(prog, subs, p)] == subs[nz_pos_key(p)].tid by {
+        let k = nz_pos_key(p);
+        assert(subs.contains_key(k));
+        assert(nz_cover_sub(home, subs[k]));
+        match p {
+            NzPos::Prog => {},
+            NzPos::Sub(k) => {},
+            NzPos::Blk(k, i) => { assert(nz_cover_blk(home, subs[k].term.blocks@[i])); },
+            NzPos::Def(k, i, j) => { assert(nz_cover_blk(home, subs[k].term.blocks@[i])); },
+            NzPos::Jmp(k, i, j) => { assert(nz_cover_blk(home, subs[k].term.blocks@[i])); },
+        }
+        let t = nz_tid_at(prog, subs, p);
+        assert(home.contains_key(t));
+        let q = choose |q: NzPos| #[trigger] nz_pos_ok(subs, q) && !(q is Prog) && nz_tid_at(prog, subs, q) == t && home[t] == subs[nz_pos_key(q)].tid;
+        assert(p == q);
+    }
+}
+
+/// worklist bookkeeping
+pub broadcast proof fn lemma_nz_in_push(w: Seq<Tid>, x: Tid, u: Tid)
+    ensures
+        #[trigger] nz_in(w.push(x), u) <==> nz_in(w, u) || u == x,
+{
+    if nz_in(w, u) {
+        let i = choose |i: int| 0 <= i < w.len() && #[trigger] w[i] == u;
+        assert(w.push(x)[i] == u);
+    }
+    if u == x {
+        assert(w.push(x)[w.len() as int] == u);
+    }
+    if nz_in(w.push(x), u) {
+        let i = choose |i: int| 0 <= i < w.push(x).len() && #[trigger] w.push(x)[i] == u;
+        if i < w.len() { assert(w[i] == u); }
+    }
+}
+
+pub broadcast proof fn lemma_nz_in_drop_last(w: Seq<Tid>, u: Tid)
+    requires
+        w.len() > 0,
+    ensures
+        #[trigger] nz_in(w, u) <==> nz_in(w.drop_last(), u) || u == w.last(),
+{
+    if nz_in(w, u) {
+        let i = choose |i: int| 0 <= i < w.len() && #[trigger] w[i] == u;
+        if i < w.len() - 1 { assert(w.drop_last()[i] == u); }
+    }
+    if nz_in(w.drop_last(), u) {
+        let i = choose |i: int| 0 <= i < w.drop_last().len() && #[trigger] w.drop_last()[i] == u;
+        assert(w[i] == u);
+    }
+    if u == w.last() {
+        assert(w[w.len() - 1] == u);
+    }
+}
+
+/// a reachable tid that names another one makes that one reachable
+pub proof fn lemma_nz_reach_step(s: Term<Sub>, bm: Map<Tid, &Term<Blk>>, t: Tid, u: Tid)
+    requires
+        nz_reachable(s, bm, t),
+        bm.contains_key(t),
+        nz_names(*bm[t], u),
+    ensures
+        nz_reachable(s, bm, u),
+{
+    let path = choose |path: Seq<Tid>| #[trigger] nz_path(s, bm, path) && path.last() == t;
+    let p2 = path.push(u);
+    assert forall |n: int| 0 <= n < p2.len() - 1 implies bm.contains_key(#[trigger] p2[n]) && nz_names(*bm[p2[n]], p2[n + 1]) by {
+        if n < path.len() - 1 {
+            assert(p2[n] == path[n] && p2[n + 1] == path[n + 1]);
+        }
+    }
+    assert(p2[0] == path[0]);
+    assert(nz_path(s, bm, p2));
+    assert(p2.last() == u);
+}
+
+/// a listed block is reachable
+pub proof fn lemma_nz_reach_start(s: Term<Sub>, bm: Map<Tid, &Term<Blk>>, i: int)
+    requires
+        0 <= i < s.term.blocks@.len(),
+    ensures
+        nz_reachable(s, bm, s.term.blocks@[i].tid),
+{
+    let path = Seq::<Tid>::empty().push(s.term.blocks@[i].tid);
+    assert(path[0] == s.term.blocks@[i].tid);
+    assert(nz_path(s, bm, path));
+    assert(path.last() == s.term.blocks@[i].tid);
+}
+
+/// taking the last entry off the worklist
+pub proof fn lemma_nz_wl_pop(set: Set<Tid>, w: Seq<Tid>, s: Term<Sub>, bm: Map<Tid, &Term<Blk>>)
+    requires
+        nz_wl_inv(set, w, s, bm, None),
+        w.len() > 0,
+    ensures
+        nz_reachable(s, bm, w.last()),
+        set.contains(w.last()) ==> nz_wl_inv(set, w.drop_last(), s, bm, None),
+        !set.contains(w.last()) ==> nz_wl_inv(set.insert(w.last()), w.drop_last(), s, bm, Some(w.last())),
+{
+    reveal(nz_wl_inv);
+    let x = w.last();
+    let w1 = w.drop_last();
+    let set1 = set.insert(x);
+    assert(nz_in(w, x)) by { assert(w[w.len() - 1] == x); }
+    assert(nz_seen(set, w, x));
+    if set.contains(x) {
+        assert forall |i: int| 0 <= i < s.term.blocks@.len() implies nz_seen(set, w1, (#[trigger] s.term.blocks@[i]).tid) by {
+            assert(nz_seen(set, w, s.term.blocks@[i].tid));
+            lemma_nz_in_drop_last(w, s.term.blocks@[i].tid);
+        }
+        assert forall |t: Tid, u: Tid| set.contains(t) && Some(t) != None::<Tid> && bm.contains_key(t) && #[trigger] nz_names(*bm[t], u) implies nz_seen(set, w1, u) by {
+            assert(nz_seen(set, w, u));
+            lemma_nz_in_drop_last(w, u);
+        }
+        assert forall |t: Tid| #[trigger] nz_seen(set, w1, t) implies nz_reachable(s, bm, t) by {
+            lemma_nz_in_drop_last(w, t);
+            assert(nz_seen(set, w, t));
+        }
+    } else {
+        assert forall |i: int| 0 <= i < s.term.blocks@.len() implies nz_seen(set1, w1, (#[trigger] s.term.blocks@[i]).tid) by {
+            assert(nz_seen(set, w, s.term.blocks@[i].tid));
+            lemma_nz_in_drop_last(w, s.term.blocks@[i].tid);
+        }
+        assert forall |t: Tid, u: Tid| set1.contains(t) && Some(t) != Some(x) && bm.contains_key(t) && #[trigger] nz_names(*bm[t], u) implies nz_seen(set1, w1, u) by {
+            assert(set.contains(t));
+            assert(nz_seen(set, w, u));
+            lemma_nz_in_drop_last(w, u);
+        }
+        assert forall |t: Tid| #[trigger] nz_seen(set1, w1, t) implies nz_reachable(s, bm, t) by {
+            lemma_nz_in_drop_last(w, t);
+            assert(nz_seen(set, w, t));
+        }
+    }
+}
+
+/// an empty worklist: the set is the set of contained block tids
+pub proof fn lemma_nz_wl_done(set: Set<Tid>, w: Seq<Tid>, s: Term<Sub>, bm: Map<Tid, &Term<Blk>>)
+    requires
+        nz_wl_inv(set, w, s, bm, None),
+        w.len() == 0,
+    ensures
+        nz_contained_ok(set, s, bm),
+{
+    reveal(nz_wl_inv);
+    assert forall |i: int| 0 <= i < s.term.blocks@.len() implies set.contains((#[trigger] s.term.blocks@[i]).tid) by {
+        assert(nz_seen(set, w, s.term.blocks@[i].tid));
+    }
+    assert forall |t: Tid, u: Tid| set.contains(t) && bm.contains_key(t) && #[trigger] nz_names(*bm[t], u) implies set.contains(u) by {
+        assert(nz_seen(set, w, u));
+    }
+    assert forall |t: Tid| #[trigger] set.contains(t) implies nz_reachable(s, bm, t) by {
+        assert(nz_seen(set, w, t));
+    }
+}
+
+/// the block that was being expanded is done: everything it names has been seen
+pub proof fn lemma_nz_wl_close(set: Set<Tid>, w: Seq<Tid>, s: Term<Sub>, bm: Map<Tid, &Term<Blk>>, cur: Tid)
+    requires
+        nz_wl_inv(set, w, s, bm, Some(cur)),
+        bm.contains_key(cur) ==> forall |u: Tid| #[trigger] nz_names(*bm[cur], u) ==> nz_seen(set, w, u),
+    ensures
+        nz_wl_inv(set, w, s, bm, None),
+{
+    reveal(nz_wl_inv);
+}
+
+/// end of generate_sub_tid_to_contained_block_tids_map
+pub proof fn lemma_nz_submap_done(s: Seq<(&Tid, &Term<Sub>)>, m: Map<Tid, HashSet<Tid>>, subs: Map<Tid, Term<Sub>>, bm: Map<Tid, &Term<Blk>>)
+    requires
+        nz_iter_of(s, subs),
+        forall |j: int| 0 <= j < s.len() ==> m.contains_key((#[trigger] s[j]).1.tid) && nz_contained_ok(m[s[j].1.tid]@, *s[j].1, bm),
+    ensures
+        nz_submap_ok(m, subs, bm),
+{
+    assert forall |k: Tid| #[trigger] subs.contains_key(k) implies m.contains_key(subs[k].tid) && nz_contained_ok(m[subs[k].tid]@, subs[k], bm) by {
+        let j = choose |j: int| 0 <= j < s.len() && *(#[trigger] s[j]).0 == k;
+        assert(m.contains_key(s[j].1.tid));
+    }
+}
+
+/// ... quantified over the map (called before the last insertion; the map after it is not nameable there)
+pub proof fn lemma_nz_submap_done_all(s: Seq<(&Tid, &Term<Sub>)>, subs: Map<Tid, Term<Sub>>, bm: Map<Tid, &Term<Blk>>)
+    requires
+        nz_iter_of(s, subs),
+    ensures
+        forall |m: Map<Tid, HashSet<Tid>>| (forall |j: int| 0 <= j < s.len() ==> m.contains_key((#[trigger] s[j]).1.tid) && nz_contained_ok(m[s[j].1.tid]@, *s[j].1, bm))
+            ==> #[trigger] nz_submap_ok(m, subs, bm),
+{
+    assert forall |m: Map<Tid, HashSet<Tid>>| (forall |j: int| 0 <= j < s.len() ==> m.contains_key((#[trigger] s[j]).1.tid) && nz_contained_ok(m[s[j].1.tid]@, *s[j].1, bm))
+        implies #[trigger] nz_submap_ok(m, subs, bm) by {
+        lemma_nz_submap_done(s, m, subs, bm);
+    }
+}
+
+/// the worklist starts with the tids of the listed blocks
+pub proof fn lemma_nz_wl_init(w: Seq<Tid>, s: Term<Sub>, bm: Map<Tid, &Term<Blk>>)
+    requires
+        w.len() == s.term.blocks@.len(),
+        forall |i: int| 0 <= i < w.len() ==> #[trigger] w[i] == s.term.blocks@[i].tid,
+    ensures
+        nz_wl_inv(Set::<Tid>::empty(), w, s, bm, None),
+{
+    reveal(nz_wl_inv);
+    let set = Set::<Tid>::empty();
+    assert forall |i: int| 0 <= i < s.term.blocks@.len() implies nz_seen(set, w, (#[trigger] s.term.blocks@[i]).tid) by {
+        assert(w[i] == s.term.blocks@[i].tid);
+    }
+    assert forall |t: Tid| #[trigger] nz_seen(set, w, t) implies nz_reachable(s, bm, t) by {
+        let i = choose |i: int| 0 <= i < w.len() && #[trigger] w[i] == t;
+        lemma_nz_reach_start(s, bm, i);
+    }
+}
+
+/// one more reachable tid on the worklist
+pub proof fn lemma_nz_wl_push(set: Set<Tid>, w: Seq<Tid>, s: Term<Sub>, bm: Map<Tid, &Term<Blk>>, cur: Option<Tid>, u: Tid)
+    requires
+        nz_wl_inv(set, w, s, bm, cur),
+        nz_reachable(s, bm, u),
+    ensures
+        nz_wl_inv(set, w.push(u), s, bm, cur),
+{
+    reveal(nz_wl_inv);
+    let w1 = w.push(u);
+    assert forall |t: Tid| nz_seen(set, w, t) implies #[trigger] nz_seen(set, w1, t) by { lemma_nz_in_push(w, u, t); }
+    assert forall |t: Tid| #[trigger] nz_seen(set, w1, t) implies nz_seen(set, w, t) || t == u by { lemma_nz_in_push(w, u, t); }
+    assert forall |i: int| 0 <= i < s.term.blocks@.len() implies nz_seen(set, w1, (#[trigger] s.term.blocks@[i]).tid) by {
+        assert(nz_seen(set, w, s.term.blocks@[i].tid));
+    }
+    assert forall |t: Tid, x: Tid| set.contains(t) && Some(t) != cur && bm.contains_key(t) && #[trigger] nz_names(*bm[t], x) implies nz_seen(set, w1, x) by {
+        assert(nz_seen(set, w, x));
+    }
+}
+
+/// the tid being expanded is reachable (it is in the set)
+pub proof fn lemma_nz_wl_reach(set: Set<Tid>, w: Seq<Tid>, s: Term<Sub>, bm: Map<Tid, &Term<Blk>>, cur: Option<Tid>, t: Tid)
+    requires
+        nz_wl_inv(set, w, s, bm, cur),
+        set.contains(t),
+    ensures
+        nz_reachable(s, bm, t),
+{
+    reveal(nz_wl_inv);
+    assert(nz_seen(set, w, t));
+}
+
+/// end of the inner loop of duplicate_blocks_contained_in_several_subs: a complete iteration over the set
+pub proof fn lemma_nz_additional_done(v: Seq<Term<Blk>>, src: Seq<Tid>, pos: Seq<int>, it: Seq<&Tid>, contained: Set<Tid>, f: Tid, home: Map<Tid, Tid>, bm: Map<Tid, &Term<Blk>>)
+    requires
+        nz_additional_n(v, src, pos, it, it.len() as int, f, home, bm),
+        it.no_duplicates(),
+        forall |j: int| 0 <= j < it.len() ==> contained.contains(*#[trigger] it[j]),
+        forall |t: Tid| contained.contains(t) ==> exists |j: int| 0 <= j < it.len() && *#[trigger] it[j] == t,
+    ensures
+        nz_additional(v, src, contained, f, home, bm),
+{
+    assert forall |i: int, j: int| 0 <= i < j < src.len() implies #[trigger] src[i] != #[trigger] src[j] by {
+        assert(pos[i] < pos[j]);
+        if src[i] == src[j] {
+            assert(*it[pos[i]] == *it[pos[j]]);
+            assert(it[pos[i]] == it[pos[j]]);
+        }
+    }
+    assert forall |i: int| 0 <= i < src.len() implies contained.contains(#[trigger] src[i]) by {
+        assert(*it[pos[i]] == src[i]);
+    }
+    assert forall |t: Tid| contained.contains(t) && !nz_home_is(home, t, f) implies nz_in(src, t) by {
+        let j = choose |j: int| 0 <= j < it.len() && *#[trigger] it[j] == t;
+        assert(nz_in(src, *it[j]));
+    }
+}
+
+/// ... quantified over the state at the end of the iteration (called at the head of the loop body)
+pub proof fn lemma_nz_additional_done_all(it: Seq<&Tid>, contained: Set<Tid>, f: Tid, home: Map<Tid, Tid>, bm: Map<Tid, &Term<Blk>>)
+    requires
+        it.no_duplicates(),
+        forall |j: int| 0 <= j < it.len() ==> contained.contains(*#[trigger] it[j]),
+        forall |t: Tid| contained.contains(t) ==> exists |j: int| 0 <= j < it.len() && *#[trigger] it[j] == t,
+    ensures
+        forall |v: Seq<Term<Blk>>, src: Seq<Tid>, pos: Seq<int>, n: int| n == it.len() && #[trigger] nz_additional_n(v, src, pos, it, n, f, home, bm)
+            ==> nz_additional_ok(v, contained, f, home, bm),
+{
+    assert forall |v: Seq<Term<Blk>>, src: Seq<Tid>, pos: Seq<int>, n: int| n == it.len() && #[trigger] nz_additional_n(v, src, pos, it, n, f, home, bm)
+        implies nz_additional_ok(v, contained, f, home, bm) by {
+        lemma_nz_additional_done(v, src, pos, it, contained, f, home, bm);
+    }
+}
+
+/// end of duplicate_blocks_contained_in_several_subs
+pub proof fn lemma_nz_addmap_done_all(s: Seq<(&Tid, &Term<Sub>)>, subs: Map<Tid, Term<Sub>>, sm: Map<Tid, HashSet<Tid>>, home: Map<Tid, Tid>, bm: Map<Tid, &Term<Blk>>)
+    requires
+        nz_iter_of(s, subs),
+    ensures
+        forall |m: Map<Tid, Vec<Term<Blk>>>| (forall |j: int| 0 <= j < s.len() ==> m.contains_key((#[trigger] s[j]).1.tid)
+                && nz_additional_ok(m[s[j].1.tid]@, sm[s[j].1.tid]@, s[j].1.tid, home, bm))
+            ==> #[trigger] nz_addmap_ok(m, subs, sm, home, bm),
+{
+    assert forall |m: Map<Tid, Vec<Term<Blk>>>| (forall |j: int| 0 <= j < s.len() ==> m.contains_key((#[trigger] s[j]).1.tid)
+                && nz_additional_ok(m[s[j].1.tid]@, sm[s[j].1.tid]@, s[j].1.tid, home, bm))
+        implies #[trigger] nz_addmap_ok(m, subs, sm, home, bm) by {
+        assert forall |k: Tid| #[trigger] subs.contains_key(k) implies m.contains_key(subs[k].tid)
+            && nz_additional_ok(m[subs[k].tid]@, sm[subs[k].tid]@, subs[k].tid, home, bm) by {
+            let j = choose |j: int| 0 <= j < s.len() && *(#[trigger] s[j]).0 == k;
+            assert(m.contains_key(s[j].1.tid));
+        }
+    }
+}
+
+/// vstd gives, for the ghost sequence of `set.iter()`: no duplicates, as long as the set, every member occurs.  By
+/// cardinality every element of the sequence is then a member.  (broadcast: makes nz_set_iter_of available at loop entry)
+pub broadcast proof fn lemma_nz_set_iter_complete(s: Seq<&Tid>, set: Set<Tid>)
+    requires
+        s.no_duplicates(),
+        s.len() == set.len(),
+        forall |k: Tid| set.contains(k) ==> s.contains(&k),
+    ensures
+        #[trigger] nz_set_iter_of(s, set),
+{
+    let t = s.map_values(|k: &Tid| *k);
+    assert(t.no_duplicates()) by {
+        assert forall |i: int, j: int| 0 <= i < t.len() && 0 <= j < t.len() && i != j implies t[i] != t[j] by {
+            assert(s[i] != s[j]);
+        }
+    }
+    t.unique_seq_to_set();
+    assert(set.subset_of(t.to_set())) by {
+        assert forall |k: Tid| set.contains(k) implies t.to_set().contains(k) by {
+            assert(s.contains(&k));
+            let i = choose |i: int| 0 <= i < s.len() && s[i] == &k;
+            assert(t[i] == k);
+            assert(t.contains(k));
+        }
+    }
+    vstd::set_lib::lemma_subset_equality(set, t.to_set());
+    assert forall |i: int| 0 <= i < s.len() implies set.contains(*#[trigger] s[i]) by {
+        assert(t[i] == *s[i]);
+        assert(t.contains(t[i]));
+        assert(t.to_set().contains(t[i]));
+    }
+    assert forall |k: Tid| set.contains(k) implies exists |i: int| 0 <= i < s.len() && *#[trigger] s[i] == k by {
+        assert(s.contains(&k));
+        let i = choose |i: int| 0 <= i < s.len() && s[i] == &k;
+        assert(*s[i] == k);
+    }
+}
+
+/// an empty set of contained blocks needs no additional blocks (makes the exit clause hold on loop entry)
+pub proof fn lemma_nz_additional_empty(contained: Set<Tid>, f: Tid, home: Map<Tid, Tid>, bm: Map<Tid, &Term<Blk>>)
+    ensures
+        forall |it: Seq<&Tid>| #[trigger] nz_set_iter_of(it, contained) && it.len() == 0 ==> nz_additional_ok(Seq::<Term<Blk>>::empty(), contained, f, home, bm),
+{
+    assert forall |it: Seq<&Tid>| #[trigger] nz_set_iter_of(it, contained) && it.len() == 0 implies nz_additional_ok(Seq::<Term<Blk>>::empty(), contained, f, home, bm) by {
+        assert(nz_additional(Seq::<Term<Blk>>::empty(), Seq::<Tid>::empty(), contained, f, home, bm));
+    }
+}
